@@ -10,10 +10,12 @@
 From Ford Require Import Base.Str Sem.UseAssoc Sem.UseAssocProofs.
 
 (* Full statement: for every legal program (wf_graph: distinct module names, unambiguous
-   identifiers, ...) on an acyclic USE graph, processed in any topological order, the tables of
-   every module are the Spec's.  Graphs, chains, ONLY lists, rename lists are unbounded; no
-   region is excluded (the five defects that made this false of the code are repaired; their
-   witnesses are the fixed examples below). *)
+   identifiers, no scope that references an intrinsic and a nonintrinsic module of one name, ...)
+   on an acyclic USE graph, processed in any topological order, the tables of every module are
+   the Spec's.  Graphs, chains, ONLY lists, rename lists are unbounded; no region is excluded.
+   The Spec honours the module nature: USE, INTRINSIC :: t designates the intrinsic module t even
+   if the project has a module t of its own; otherwise the project's module t is the one accessed
+   (Fortran 2018 14.2.2). *)
 Definition C06_statement : Prop :=
   forall g o, wf_graph g = true -> topo_b g o = true ->
   forall c M, In M g -> tables_ok c g (correlate_all c g o) M.
@@ -21,6 +23,53 @@ Definition C06_statement : Prop :=
 Theorem C06_full : C06_statement.
 Proof. exact full_correct. Qed.
 Print Assumptions C06_full.
+
+(* Former witness of intrinsic-nature-ignored: module iso_fortran_env of the project declares foo;
+   mb: use, intrinsic :: iso_fortran_env gets nothing of it and does not depend on it;
+   mc: use iso_fortran_env gets the project's foo. *)
+Theorem C06_fixed_intrinsic_nature :
+  wf_graph w_nature = true /\ toposort w_nature = Some [s "iso_fortran_env"; s "mb"; s "mc"] /\
+  deps w_nature (nth 1 w_nature w_ma) = [] /\
+  snd (tab_of w_nature [s "iso_fortran_env"; s "mb"; s "mc"] 1 CVar) = [] /\
+  assoc_get (s "foo") (snd (tab_of w_nature [s "iso_fortran_env"; s "mb"; s "mc"] 2 CVar)) = Some (s "iso_fortran_env", s "foo").
+Proof. exact fixed_nature. Qed.
+Print Assumptions C06_fixed_intrinsic_nature.
+
+(* "USE resolves to the project's module": find_used_modules takes the first candidate of the
+   name in chain(modules, external_modules) ([find_used g ext]: ext = the names of the link
+   objects: settings.INTRINSIC_MODS and the extra_mods option).  Whatever ext holds, a project
+   module of the name is the one found; a link object only if no project module has the name.
+   (For a name the scope uses with INTRINSIC only the link objects are candidates:
+   [find_used_in g ext true].) *)
+Theorem C06_project_module_first : forall g ext n,
+  find_used g ext n = match find_module g n with
+                      | Some M => Some (CMod M)
+                      | None => if str_in n ext then Some (CExt n) else None
+                      end.
+Proof. exact find_used_spec. Qed.
+Print Assumptions C06_project_module_first.
+
+Theorem C06_intrinsic_never_project : forall g ext n,
+  find_used_in g ext true n = (if str_in n ext then Some (CExt n) else None)
+  /\ find_used_in g ext false n = find_used g ext n.
+Proof. exact find_used_in_spec. Qed.
+Print Assumptions C06_intrinsic_never_project.
+
+(* non-vacuity: project modules named mpi (an INTRINSIC_MODS entry) and extlib (an extra_mods
+   entry), used without module nature, re-exported through mb, next to use, intrinsic ::
+   iso_c_binding: hypotheses of C06_full hold, the project's modules are found, their entities
+   reach mc *)
+Theorem C06_example_special :
+  wf_graph ex_special = true /\  toposort ex_special = Some [s "mpi"; s "extlib"; s "mb"; s "mc"] /\
+  find_used ex_special ex_ext (s "mpi") = Some (CMod (nth 0 ex_special w_ma)) /\
+  find_used ex_special ex_ext (s "extlib") = Some (CMod (nth 1 ex_special w_ma)) /\
+  find_used ex_special ex_ext (s "iso_c_binding") = Some (CExt (s "iso_c_binding")) /\
+  find_used ex_special ex_ext (s "nosuch") = None /\
+  assoc_get (s "comm") (snd (tab_of ex_special [s "mpi"; s "extlib"; s "mb"; s "mc"] 3 CVar)) = Some (s "mpi", s "comm") /\
+  assoc_get (s "mpi_send") (snd (tab_of ex_special [s "mpi"; s "extlib"; s "mb"; s "mc"] 3 CProc)) = Some (s "mpi", s "mpi_send") /\
+  assoc_get (s "tl") (snd (tab_of ex_special [s "mpi"; s "extlib"; s "mb"; s "mc"] 3 CType)) = Some (s "extlib", s "thing").
+Proof. exact ex_special_facts. Qed.
+Print Assumptions C06_example_special.
 
 (* The former witnesses (legal program, FORD's processing order) with the entries the repaired
    code gives the importing module; [tab_of g o i c] = the (pub, all) dictionaries of class c of
@@ -105,7 +154,7 @@ Print Assumptions C06_spec_private_never_accessible.
 
 (* the Spec's fuel (number of modules) is enough: any larger fuel gives the same sets *)
 Theorem C06_fuel_enough : forall c g o,
-  topo_b g o = true -> no_self_use g = true ->
+  topo_b g o = true -> no_self_use g = true -> nature_legal g = true ->
   forall M, In M g -> forall f, length g <= f -> accessible_n f c g M = accessible c g M.
 Proof. exact accessible_fuel_enough. Qed.
 Print Assumptions C06_fuel_enough.
